@@ -69,7 +69,9 @@ def search(tier, rng):
     yield J('p_rr_confine', 0, 0, 100, 10, 60, 10, 50, 0, 0, 0, 0, 9)
     yield J('p_rr_builder', 3, -2, 20, 30, 1, 2, 3, 4, 5, 6, 7, 8)
     for _ in range(500 if tier == 'quick' else 20000):
-        yield J('p_rr_builder', *conf(rng))
+        # the builder suite also compares points(): stay inside the shape domain (sides <= 16383, radii that do not overflow the
+        # u64 quadrant test); conf() with extents up to 65535 is for the pure radius arithmetic of p_rr_confine only
+        yield J('p_rr_builder', *(small(rng) if rng.random() < 0.5 else medium(rng)))
     for ra in range(17):
         for rb in range(17):
             yield J('p_rr_half', -3, 4, ra, rb, 1 + (ra + rb) % 3)
